@@ -23,6 +23,9 @@ CLAIMED = {
         'QAM Gray theorem proved for orders 4 and 16 only (the code is not Gray labelled from 64 on).'),
 }
 
+# properties whose checks have been integrated and validated on the clean tree
+INTEGRATED = ['C01', 'C15']
+
 PENDING_REASON = 'check not built yet at this commit (planned in DESIGN.md §5; no other technique is substituted)'
 
 
@@ -37,7 +40,8 @@ def collect_claims():
         for n in tree.body:
             if isinstance(n, ast.Assign) and getattr(n.targets[0], 'id', None) == 'CLAIM':
                 c = ast.literal_eval(n.value)
-                CLAIMED[fn[:-3].upper()] = (c['technique'], c['text'], c['note'])
+                if fn[:-3].upper() in INTEGRATED:
+                    CLAIMED[fn[:-3].upper()] = (c['technique'], c['text'], c['note'])
 
 
 def main():
